@@ -1,11 +1,28 @@
 (* C14, HLL part -- malformed bytes: HllSketch::deserialize returns Ok or Err, never panics, and
    what it returns as Ok is well formed.  Statements only; proofs in Proofs/HllCodecProofs.v.
    [hll_deserialize] (Model/HllCodec.v) mirrors the REPAIRED reader (/repo fix: commits efc0a54,
-   5fdcb41, 24bc284, 2b49a48, 56e3cfb, 3700a36) field by field with [Stuck] at every panic site it can
-   reach: `1 << lg_arr`, HashSet::update's "HashSet full", AuxMap's three unreachable!()s, the
-   expect()s of Array4. *)
+   5fdcb41, 24bc284, 2b49a48, 56e3cfb, 3700a36, 08d9c35, 2f7e0d8) field by field with [Stuck] at the
+   panic sites it can reach: HashSet::update's "HashSet full", AuxMap's three unreachable!()s, the
+   expect()s of Array4.  (The list, Hll6 and Hll8 reader paths contain no panic site in the crate
+   after the repairs -- lg_arr is range-checked before `1 << lg_arr` -- so the totality theorem is
+   non-trivial only for the set and Hll4-aux paths.)
+   The usability clause of the property ("an Ok value can be queried, updated, merged, re-serialized
+   without panicking"):
+     updated / merged -- PROVED for canonical images through the bridge c14_hll_ok_is_source: the
+       result is a well-formed source (SrcOK), so c11_hll_source_updates (updates never stuck) and
+       c03 / c17_hll_union_never_stuck (merges never stuck) apply;
+     re-serialized -- hll_serialize has no panic site (total function of the model);
+     queried -- NO THEOREM: estimate() / upper_bound() / lower_bound() run the composite estimator
+       (cubic interpolation over tables, with debug assertions) which the model does not contain.
+       What is proved is c14_hll_ok_estimator_fields: an accepted array image has finite,
+       non-negative hip_accum / kxq0 / kxq1 (before fix 08d9c35 a NaN kxq0 with the OUT_OF_ORDER flag
+       was accepted and estimate() failed the debug assertion of cubic_interpolation).  The malformed
+       leg calls estimate and the three bounds on every accepted image, debug and release, with
+       panic_is_violation.
+     non-canonical accepted images (set with fewer than 8 coupons; Hll4 with no register at cur_min)
+       -- outside the theorems; exercised by the oracle only. *)
 From DS Require Import Base.Prelude Model.Hll Model.HllCodec Proofs.HllBase Proofs.HllSet Proofs.HllAux Proofs.HllArray4
-  Proofs.HllCodecProofs.
+  Proofs.HllRefine Proofs.HllUnionProofs Proofs.HllCodecProofs.
 Open Scope N_scope.
 
 (* for EVERY byte string (any list of numbers, even non-bytes): Ok or Err, never a panic site *)
@@ -13,38 +30,63 @@ Theorem c14_hll_deserialize_total : forall bs, hll_deserialize bs <> Stuck.
 Proof. exact hll_deserialize_total. Qed.
 
 (* a value returned as Ok is well formed ([image_wf]): lg_k in 4..21;
-   list: 8 slots, fewer than 8 coupons (so the next update is never dropped: defect D1);
+   list: the list invariant of C02 -- 8 slots, the coupons first, all distinct, all valid (value
+        1..63), the count field equal to the number of occupied slots and < 8, so the next update is
+        never dropped (defect D1, and fix 2f7e0d8: images whose occupied slots disagree with the
+        count, duplicates and value-0 coupons are rejected);
    set: lg_k >= 8, 5 <= lg size <= lg_k - 3, the table satisfies the open-addressing invariant with
-        len = number of stored coupons and load <= 3/4 (so HashSet::update cannot hit "HashSet full");
+        len = number of stored coupons = the announced count, all coupons valid, load <= 3/4 (so
+        HashSet::update cannot hit "HashSet full");
    Hll4: the full Array4 invariant of C02 (nibbles / aux map / cur_min / num_at_cur_min consistent,
-        every exception listed once on an AUX_TOKEN slot) for a register file <= 63 -- hence by
-        c02_array4_inv_update every further update is panic-free when some register is at cur_min;
-   Hll8: registers <= 63, num_zeros exact.
-   PARTIAL: for Hll6 only lg_k is claimed (the padding byte of the register block is not
-   constrained by the reader; it is never read by the crate); for Hll4 images in which no register
-   equals cur_min (num_at_cur_min = 0, never written by any implementation) the update theorem of C02
-   does not apply as stated; list/set coupons may carry a value field 0 (harmless no-ops in array
-   mode, outside C02's [valid]). *)
+        every exception listed once on an AUX_TOKEN slot) for a register file <= 63;
+   Hll6: a byte array (so every register read is < 64), num_zeros exact;
+   Hll8: registers <= 63, num_zeros exact, nothing beyond k;
+   arrays: hip_accum, kxq0, kxq1 finite and non-negative. *)
 Theorem c14_hll_ok_is_wellformed : forall bs s, BOK bs -> hll_deserialize bs = Ok s -> image_wf s.
 Proof. exact hll_deserialize_ok_wf. Qed.
+
+(* the bridge to C02 / C03 / C11 / C17: a canonical Ok value (set: >= 8 coupons; Hll4: some register
+   at cur_min) is a well-formed source sketch *)
+Theorem c14_hll_ok_is_source :
+  forall bs s, BOK bs -> hll_deserialize bs = Ok s -> image_canonical s ->
+  exists cs, SrcOK (sk_lgk s) (tag_flag (sk_tag s)) cs s.
+Proof. exact hll_deserialize_src_ok. Qed.
+
+(* the estimator fields of an accepted array image *)
+Theorem c14_hll_ok_estimator_fields :
+  forall d1 d2 d3 ooo, image_fields_ok d1 d2 d3 = true -> est_wf (est_of_image d1 d2 d3 ooo).
+Proof. exact est_of_image_wf. Qed.
 
 (* the pieces: the set reader and the aux reader never reach the unreachable!()s *)
 Theorem c14_hll_set_reader :
   forall bs lg compact,
   set_deserialize bs lg compact <> Stuck /\
   forall st, set_deserialize bs lg compact = Ok st ->
-    hs_lg st = lg /\ (exists S, SetRep lg st S) /\ 4 * hs_len st <= 3 * 2 ^ lg.
+    hs_lg st = lg /\ (exists S, SetRep lg st S /\ (forall c, In c S -> c <> 0 /\ get_value c <> 0) /\
+                       (BOK bs -> forall c, In c S -> c < 2 ^ 32)) /\ 4 * hs_len st <= 3 * 2 ^ lg.
 Proof. exact set_deserialize_spec. Qed.
 
 Theorem c14_hll_array4_reader :
   forall bs cm lgk ooo a, BOK bs -> 4 <= lgk <= 21 -> a4_deserialize bs cm lgk ooo = Ok a ->
-  exists regs, Inv4 lgk regs a /\ (forall j, j < 2 ^ lgk -> regs j <= 63).
+  (exists regs, Inv4 lgk regs a /\ (forall j, j < 2 ^ lgk -> regs j <= 63)) /\ est_wf (a4_est a).
 Proof. exact a4_deserialize_ok. Qed.
 
+Theorem c14_hll_list_reader :
+  forall bs count empty compact l, BOK bs -> list_deserialize bs LG_LIST_SIZE count empty compact = Ok l ->
+  exists ds, ListInv l ds /\ (length ds < 8)%nat /\ Forall valid ds.
+Proof. exact list_deserialize_ok. Qed.
+
 (* non-vacuity: a 12-byte list image with one coupon is accepted; an image announcing lg_arr 200
-   (defect D13) and a truncated one are rejected, none is stuck *)
+   (defect D13), a truncated one, an updatable list image whose 8 slots are all occupied while it
+   announces 3 coupons (fix 2f7e0d8) and an Hll8 image with OUT_OF_ORDER and kxq0 = NaN (fix 08d9c35)
+   are rejected, none is stuck *)
 Example c14_hll_example :
   (exists s, hll_deserialize [2; 1; 7; 10; 3; 8; 1; 8; 5; 0; 0; 4] = Ok s) /\
   hll_deserialize [2; 1; 7; 10; 200; 8; 1; 8; 5; 0; 0; 4] = Err /\
-  hll_deserialize [10; 1; 7; 21; 0; 8; 0; 10] = Err.
-Proof. vm_compute. split; [eexists; reflexivity|split; reflexivity]. Qed.
+  hll_deserialize [10; 1; 7; 21; 0; 8; 0; 10] = Err /\
+  hll_deserialize ([2; 1; 7; 10; 3; 0; 3; 8] ++ flat_map (fun i => [i; 0; 0; 4]) [1; 2; 3; 4; 5; 6; 7; 8]) = Err /\
+  hll_deserialize ([10; 1; 7; 4; 0; 24; 0; 10] ++ repeat 0 8 ++ [0; 0; 0; 0; 0; 0; 248; 127] ++ repeat 0 8
+                   ++ le_bytes 4 16 ++ le_bytes 4 0 ++ repeat 0 16) = Err /\
+  (exists s, hll_deserialize ([10; 1; 7; 4; 0; 24; 0; 10] ++ repeat 0 8 ++ [0; 0; 0; 0; 0; 0; 48; 64] ++ repeat 0 8
+                   ++ le_bytes 4 16 ++ le_bytes 4 0 ++ repeat 0 16) = Ok s).
+Proof. vm_compute. split; [eexists; reflexivity|]. repeat (split; [reflexivity|]). eexists; reflexivity. Qed.
